@@ -3,6 +3,14 @@
 #include <functional>
 #include <utility>
 #include <memory>
+#ifdef VERIFY
+// C02: verify() reports through tlx_die_unless(), i.e. die_with_message() building a std::ostringstream message (libstdc++.so, not encodable, and one
+// inlined copy per check site and verify_node instance). The macro is re-pointed at a failing assertion that carries the condition text; verify()'s
+// own logic is the unmodified library code.  (die/core.hpp has an include guard, so btree.hpp keeps this definition.)
+#include <tlx/die/core.hpp>
+#undef tlx_die_unless
+#define tlx_die_unless(X) do { if (!(X)) { CHECK(false, "verify(): " #X); } } while (false)
+#endif
 #include <tlx/container/btree_set.hpp>
 #include <tlx/container/btree_multiset.hpp>
 #include <tlx/container/btree_map.hpp>
@@ -49,7 +57,8 @@ static long g_alloc_live = 0, g_alloc_total = 0;
 template <typename T> struct CountAlloc {
     typedef T value_type; typedef size_t size_type; typedef ptrdiff_t difference_type;
     CountAlloc() {} template <typename U> CountAlloc(const CountAlloc<U>&) {}
-    T* allocate(size_t n) { g_alloc_live += 1; g_alloc_total += 1; return static_cast<T*>(::operator new(n * sizeof(T))); }
+    // noinline: the allocation keeps its element type in the IR (inlined into the node constructors it is only seen through header-field offsets)
+    __attribute__((noinline)) T* allocate(size_t n) { g_alloc_live += 1; g_alloc_total += 1; return static_cast<T*>(::operator new(n * sizeof(T))); }
     void deallocate(T* p, size_t) { g_alloc_live -= 1; ::operator delete(p); }
     template <typename U> struct rebind { typedef CountAlloc<U> other; };
     bool operator==(const CountAlloc&) const { return true; } bool operator!=(const CountAlloc&) const { return false; }
@@ -199,6 +208,8 @@ static void prefix(Tree& t, Model& m)
 #elif PRE == 6      // duplicate run spanning at least two leaves (multi containers); unique containers get distinct keys
     for (unsigned i = 0; i < LEAF + 3; ++i) p_ins(t, m, (uint8_t)(MULTI ? 10 : 10 + i), (uint8_t)i);
     p_ins(t, m, 4, 100); p_ins(t, m, 20, 101);
+#elif PRE == 9      // a minimum-fill leaf between a full left sibling and a three-entry right sibling under one parent: [10 11 21 25][28 29][30 37 38]
+    { static const uint8_t ks[9] = {25, 30, 21, 29, 38, 10, 28, 37, 11}; for (unsigned i = 0; i < 9; ++i) p_ins(t, m, (uint8_t)(ks[i] - 8), (uint8_t)i); }
 #elif PRE == 8      // a single entry: the root is a leaf that the next erase empties
     p_ins(t, m, 12, 7);
 #elif PRE == 7      // short duplicate run (three equivalent keys) that crosses a leaf boundary
@@ -212,8 +223,8 @@ HARNESS(h_btree)
     Tree* tp = new Tree(); Tree& t = *tp;
     Model m; m.n = 0;
     prefix(t, m);
-#ifdef VERIFY
-    t.verify();
+#if defined(VERIFY) && defined(VERIF_NATIVE)
+    t.verify();      // native builds (replay) also check the concrete prefix state; the symbolic run calls verify() after every symbolic step, and verify() inspects the whole tree
 #endif
     for (unsigned step = 0; step < OPS; ++step) {
         uint8_t key = (uint8_t)nondet_below(KEYS), val = nondet_u8();
